@@ -501,6 +501,12 @@ def run_check(prop, tier, seed):
         coverage["programs"] = len(results)
         coverage["disagreements_checked"] = len(kbreak) + len(failing)
     finish(prop, tier, seed, t0, coverage, 0 if rc == 0 else 1, level=level)
+    # scratch hygiene: the encoded case files of a run are large (thorough: hundreds of MB) and are not needed
+    # for a replay (a replay file carries its case and is re-run from it)
+    for f in os.listdir(workdir):
+        fp = os.path.join(workdir, f)
+        if os.path.isfile(fp) and not f.startswith("replay_") and os.path.getsize(fp) > (4 << 20):
+            os.remove(fp)
     return rc
 
 
